@@ -423,6 +423,12 @@ impl PartialOrd for SymI32 {
         !self.lt(o)
     }
 }
+impl Eq for SymI32 {}
+impl Ord for SymI32 {
+    fn cmp(&self, o: &SymI32) -> Ordering {
+        self.partial_cmp(o).unwrap()
+    }
+}
 impl BoundedMeasure for SymI32 {
     fn min() -> Self {
         SymI32::lit(I32_MIN)
